@@ -406,9 +406,8 @@ def addFeatures (src : Layer) : List Feature → Layer → Outcome Layer
 def addFromLayer (tgt src : Layer) : Outcome Layer := addFeatures src src.features tgt
 
 /-- `layers.get_mut(name)` / `layers.insert(name, layer)`; the map `String → Layer` is an association
-    list in order of first insertion.  Since /repo d0cb5799 the real map is a `BTreeMap`, i.e. the
-    output order is "sorted by name": `handleMerge` prints `sortByName` of the result and the harness
-    compares it with the real, unsorted output. -/
+    list in order of first insertion; the real map is a `BTreeMap` (since /repo d0cb5799) whose
+    iteration order – ascending by name – is applied once at the end, in `mergedTile`. -/
 def mergeLayer : List Layer → Layer → Outcome (List Layer)
   | [], nl => .ok [nl]
   | l :: t, nl =>
@@ -444,14 +443,25 @@ def mergeBlobs : List Layer → List Bytes → Outcome (List Layer)
     | .err => .err
     | .panic => .panic
 
+/-- insertion into a list of layers ordered by name -/
+def insertByName (l : Layer) : List Layer → List Layer
+  | [] => [l]
+  | x :: t => if bytesLt x.name l.name then x :: insertByName l t else l :: x :: t
+
+def sortByName : List Layer → List Layer
+  | [] => []
+  | l :: t => insertByName l (sortByName t)
+
 /-- `get_tile_data` of the merged operation: sources without a tile are skipped; no tile at all →
-    `None`; otherwise `merge_tiles` (sources already decompressed). -/
+    `None`; otherwise `merge_tiles` (sources already decompressed).  The layers leave the
+    `BTreeMap<String, VectorTileLayer>` (since `fix:` d0cb5799) in ascending order of their names:
+    `sortByName` of the accumulated association list (names are distinct there). -/
 def mergedTile (srcs : List (Option Bytes)) : Outcome (Option Tile) :=
   match srcs.filterMap id with
   | [] => .ok none
   | blobs =>
     match mergeBlobs [] blobs with
-    | .ok ls => .ok (some ⟨ls⟩)
+    | .ok ls => .ok (some ⟨sortByName ls⟩)
     | .err => .err
     | .panic => .panic
 
@@ -543,14 +553,6 @@ def dumpLayer (l : Layer) : String :=
 def dumpLayers (ls : List Layer) : String :=
   if ls.isEmpty then "empty" else "|".intercalate (ls.map dumpLayer)
 
-def insertByName (l : Layer) : List Layer → List Layer
-  | [] => [l]
-  | x :: t => if bytesLt x.name l.name then x :: insertByName l t else l :: x :: t
-
-def sortByName : List Layer → List Layer
-  | [] => []
-  | l :: t => insertByName l (sortByName t)
-
 /-! ### line protocol
 
 `C11d <tilehex>` → `ok <hex of to_blob(from_blob)> <dump of the re-decoded result>` | `err` | `panic`
@@ -560,7 +562,7 @@ def sortByName : List Layer → List Layer
   fmt: `f<bits>=<hex>,d<bits>=<hex>` or `.`
   → `builderr` | `ok <dump>` | `err` | `panic`
 
-`C10m <src>,<src>,…` (src = `none` | tilehex) → `none` | `ok <dump sorted by layer name>` | `err` | `panic`
+`C10m <src>,<src>,…` (src = `none` | tilehex) → `none` | `ok <dump, layers in output order>` | `err` | `panic`
 -/
 
 def noTables (_ : List Props) : List Bytes × List Value := ([], [])
@@ -688,7 +690,7 @@ def handleMerge (args : List String) : String :=
       | .ok none => "none"
       | .ok (some t) =>
         match decodeTile (encodeTile t) with
-        | .ok t2 => "ok " ++ dumpLayers (sortByName t2.layers)
+        | .ok t2 => "ok " ++ dumpLayers t2.layers
         | _ => "ok-then-fail"
       | .err => "err"
       | .panic => "panic"
